@@ -16,6 +16,24 @@ THEOREMS = [
     "HedVerif.C03.remainder_verbatim",
     "HedVerif.C03.forms_roundtrip",
     "HedVerif.C03.namespace_ascii",
+    # growth: soundness of registration, structural well-formedness, closed forms
+    "HedVerif.Schema.register_sound_aux",
+    "HedVerif.Schema.register_dups_spec",
+    "HedVerif.C03.register_sound",
+    "HedVerif.C03.treeClosed_iff_parents",
+    "HedVerif.C03.wf_of_shortDistinct",
+    "HedVerif.C03.dups_nil_of_shortDistinct",
+    "HedVerif.C03.prefixes_known",
+    "HedVerif.C03.key_prefix",
+    "HedVerif.C03.extension_cases",
+    "HedVerif.C03.extension_resolves",
+    "HedVerif.C03.value_resolves",
+    "HedVerif.C03.valueChild_of_tag",
+    "HedVerif.C03.child_key",
+    "HedVerif.C03.stop_transfer",
+    "HedVerif.C03.forms_roundtrip_remainder",
+    "HedVerif.C03.short_long_fixpoint",
+    "HedVerif.C03.no_aliasing",
 ]
 BUDGET = {"quick": 900, "thorough": 3600}
 
@@ -147,6 +165,15 @@ def run_schema(ctx, name, full, ns=""):
     if not answers[0].get("wf"):
         ctx.notes.append(f"vocabulary {name} does not satisfy C03.WF (a folded form bound to two entries): theorems do not speak about it")
     ctx.count(f"schema:{name}{ns}:WF={answers[0].get('wf')}")
+    for cond, what in (("treeClosed", "C03.TreeClosed (a tag whose parent path is not a tag)"),
+                       ("shortDistinct", "C03.ShortDistinct (two tags with the same folded short name)")):
+        ctx.count(f"schema:{name}{ns}:{cond}={answers[0].get(cond)}")
+        if not answers[0].get(cond):
+            note = (f"vocabulary {name} does not satisfy {what}: the closed-form theorems "
+                    "(prefixes_known, extension_resolves, forms_roundtrip_remainder, short_long_fixpoint) "
+                    "do not speak about it")
+            if note not in ctx.notes:
+                ctx.notes.append(note)
     answers = answers[1:]
     for (text, long, form, rem, kind), m in zip(cases, answers):
         try:
